@@ -426,7 +426,7 @@ func c20MethodEmbeds() []c20Embed {
 }
 
 func runC20(seed int64, n int, tier string, outDir string) (*Report, error) {
-	rep := &Report{Exhaustive: true, Rule: "exhaustive matrix: {untyped nil, typed nil pointer of each of the 14 struct types} x every exported helper taking an Item (On*/To* incl. the collection-interface one, predicates, equality, flattening, recipient cleaning, dereferencing, ordering, collection Contains/Append/Remove, both encoders, copy, collection-path helpers) at top level, and x every walker with the nil-like value planted as list member and as property of an otherwise valid activity; per cell: no panic, neutral result or error, callback argument at worst a nil pointer; the cell outcome is compared with the model matrix in Coq; non-trivial = every cell; distinct by (helper, nil kind, position)"}
+	rep := &Report{Exhaustive: true, Rule: "exhaustive matrix: {untyped nil, typed nil pointer of each of the 14 struct types} x every exported helper taking an Item (On*/To* incl. the collection-interface one, predicates, equality, flattening, recipient cleaning, dereferencing, ordering, collection Contains/Append/Remove, both encoders, copy, collection-path helpers) at top level, and x every walker with the nil-like value planted as list member and as property of an otherwise valid activity; per cell: no panic, neutral result or error (for Append / IsObject / IsLink: no panic and the returned value only - that Append(nil-like) makes the item a member is not judged), callback argument at worst a nil pointer; the cell outcome is compared with the model matrix in Coq; non-trivial = every cell; distinct by (helper, nil kind, position)"}
 	nils := []ap.Item{nil}
 	names := []string{"INil"}
 	for i, rt := range structTypes {
